@@ -139,8 +139,9 @@ package pubsub
 //@   loop 1 invariant backoff-grows: forall t string, q string :: old(has(gs.backoff, t, q)) ==> has(gs.backoff, t, q) && gs.backoff[t][q] >= old(gs.backoff[t][q])
 //@   loop 1 invariant score-read-once: score == old(score(gs, p))
 //@   loop 1 invariant removed: ctl != nil ==> (forall i int :: 0 <= i && i <= rangeindex ==> !has(gs.mesh, ctlTopic(ctl.Prune[i].TopicID), p))
-//@   at call doAddBackoff assert stated-period: $arg1 == p && $arg2 == topic && $arg3 == statedBackoff(prune) * 1000000000 && statedBackoff(prune) > 0
-//@   at call addBackoff assert default-period: $arg1 == p && $arg2 == topic && !$arg3
+//@   loop 1 invariant time: now >= old(now) && gs.params.PruneBackoff == old(gs.params.PruneBackoff)
+//@   at call doAddBackoff#1 assert stated-period: $arg1 == p && $arg2 == topic && $arg3 == statedBackoff(prune) * 1000000000 && statedBackoff(prune) > 0
+//@   at call addBackoff#1 assert default-period: $arg1 == p && $arg2 == topic && !$arg3
 //@   at call pxConnect assert px-threshold: score >= gs.acceptPXThreshold
 //@   at call Prune assert traced-topic: $arg1 == p && $arg2 == topic && topic in gs.mesh
 //@   ensures removed: ctl != nil ==> (forall i int :: 0 <= i && i < len(old(ctl.Prune)) ==> !has(gs.mesh, ctlTopic(old(ctl.Prune[i].TopicID)), p))
